@@ -115,7 +115,7 @@ def c02(tier, seed):
         "C02", tier, seed, suites.c02_cases(tier, seed), "pairwise",
         functions_encoded=["generated into_view / Display::fmt / build_string / build_display / literal accessors",
                            "expansions of the real t_macro_inner for td!/t!/tu! x view/string/display (9 flavours) evaluated down into the generated items"],
-        bounds="the project families of C01, C03, C04, C05, C06 (sub-sampled in the quick tier); per key: view vs Display vs String vs the nine macro expansions, for every locale / argument / count / category. Outside: scope_i18n!/use_i18n_scoped!/scope_locale! (type-state in library code, resolved by rustc's trait dispatch, not generated code).",
+        bounds="the project families of C01, C03, C04, C05, C06 (sub-sampled in the quick tier); per key: view vs Display vs String vs the nine macro expansions, for every locale / argument / count / category. Scoping: for every nested keys struct S (subkey group, namespace) the generated `<S as LocaleKeys>::from_locale(l)` (what a scoped context / scoped locale builds its keys with) is evaluated and must be the value the accessor chain gives, so a scoped access reads the terms decided above; the type-state plumbing of scope_i18n!/use_i18n_scoped!/scope_locale! in leptos_i18n/src/scopes.rs (same locale signal, Keys type selected by trait dispatch) is library code and trusted.",
         extra_assumptions=["`t!(ctx, ..)` reads the context's current locale: I18nContext::get_keys(ctx) is modelled as Locale::get_keys(locale of ctx)"])
 
 
